@@ -1,6 +1,6 @@
 """C01 - restructuring preserves every execution path (both walkers, every stage prefix)."""
 from vf.s1common import s1_jobs, sig_of, exc_signature, graph_features, front_end_jobs
-from vf.oracles.hier import build_scfg, orig_map, STAGES, flat_walk_check, region_walk_check, flatten
+from vf.oracles.hier import build_scfg, orig_map, STAGES, flat_walk_check, region_walk_check, flatten, staged, route_stages
 
 PROPERTY = "C01"
 LEVEL = "model_checking"
@@ -31,13 +31,14 @@ ASSUMPTIONS = [
 def check(desc):
     fails = []
     orig = orig_map(desc)
-    for k in (1, 2, 3):
-        g = build_scfg(desc)
+    for k in route_stages(desc, (1, 2, 3)):
         try:
-            for s in STAGES[:k]:
-                getattr(g, s)()
-        except Exception:
+            g, _ = staged(desc, "basic", k)
+        except Exception as e:
+            # no graph after this stage: the paths of the original are not preserved by anything
             fails.append({"kind": "skip", "signature": "", "detail": f"stage prefix {k} raised"})
+            fails.append({"kind": "stage-exception", "signature": f"s{k}:stage-exception:{exc_signature(e)}",
+                          "detail": f"stage prefix {k} ({desc.get('route') or 'direct'}) raised {type(e).__name__}: {e}"[:300]})
             break
         for wname, walker in (("flat", flat_walk_check), ("region", region_walk_check)):
             try:
